@@ -99,7 +99,7 @@ pub trait Prop: Sync {
     fn wall_cap_s(&self, tier: Tier) -> u64 {
         match tier {
             Tier::Quick => 240,
-            Tier::Thorough => 3600,
+            Tier::Thorough => 1500,
         }
     }
     /// max number of re-executions spent minimising one violation
